@@ -52,6 +52,9 @@ Definition c18_spec_ok (c : c18_case) (r : option (dstate * option iout)) : bool
       out_ok (d_in (i_state c)) o
       && rpm_ok (engine_rpm (d_in d'))
       && implb (is_abort_press c) (match o with Some (IMotion StopAll) => motion_lock (d_in d') | _ => false end)
+      (* "engaged as at start-up": the state replay the kernel sends when the device is opened
+         (records with the init flag, 0x80) never disengages the lock *)
+      && implb ((128 <=? i_ty c) && motion_lock (d_in (i_state c))) (motion_lock (d_in d'))
   end.
 
 Definition c18_model (c : c18_case) : option (dstate * option iout) :=
